@@ -138,84 +138,166 @@ let c13_label_str (l : label) : string =
 
 let c13_thread = function 'I' -> RgIn | 'O' -> RgOut | 'H' -> RgHs | 'T' -> RgTl | _ -> failwith "thread"
 
-type c13_exec = { mutable ms : rg_mem * state; mutable labs : label list; mutable nsteps : int;
+type c13_exec = { mutable ms : rg_mem * rp_state; mutable labs : rp_label list; mutable nsteps : int;
                   mutable bad : (int * string) option }
 
-let c13_search ug tm cs ss (turns : string) =
+let c13_rp_label_str late = function
+  | RpPublish -> "HB"
+  | RpL LOutStoreH when late -> "Oh"   (* no operation in the late variant *)
+  | RpL l -> c13_label_str l
+
+(* the model variant: <ug><late> ("00" faithful, "10" reset from any state, "01" handshaking
+   published by the worker) or "gen" = what the current source has (Relay.rg_current, rp_current) *)
+let c13_variant = function
+  | "gen" -> (rg_current, rp_current)
+  | "0" | "00" -> (false, false) | "1" | "10" -> (true, false) | "01" -> (false, true) | "11" -> (true, true)
+  | _ -> failwith "variant"
+
+let c13_count p l = List.length (List.filter p l)
+let c13_is n x = int_of_n x = n
+
+(* Causality of the scripted peers (they are not threads of the model): the client sends its
+   k-th ACT line (a chunk holding 1) only after k triggers (9) have reached it, and whatever it
+   sends after a confirmed ACT (holding 3) only after the CFG of that transfer (2 or the relay's
+   102) has reached it; the server sends its k-th CFG line (a chunk holding 2) only after the
+   ACT of the k-th confirmed transfer (1 or the relay's 101) has reached it. *)
+let c13_search (ug, late) tm cs ss (turns : string) =
   let ci = List.concat cs and si = List.concat ss in
   let n = String.length turns in
-  let fresh () = { ms = (rg_mem0, init cs ss); labs = []; nsteps = 0; bad = None } in
-  (* run thread th for at most limit steps or until it is back at its loop head / not enabled;
-     returns the number of steps taken *)
+  let has k c = List.exists (c13_is k) c in
+  let ncs = List.length cs and nss = List.length ss in
+  (* requirement of the client chunk number idx: (triggers at the client, CFGs at the client) *)
+  let creq = Array.make (ncs + 1) (0, 0) and sreq = Array.make (nss + 1) 0 in
+  let acts = ref 0 and confirmed = ref 0 and actpos = ref [] in
+  List.iteri (fun i c ->
+      if has 1 c then begin incr acts; creq.(i) <- (!acts, !confirmed);
+        if has 3 c then begin incr confirmed; actpos := !acts :: !actpos end end
+      else creq.(i) <- (0, !confirmed)) cs;
+  let actpos = Array.of_list (List.rev !actpos) in
+  let cfgs = ref 0 in
+  List.iteri (fun i c -> if has 2 c then begin
+                 sreq.(i) <- (if !cfgs < Array.length actpos then actpos.(!cfgs) else max_int); incr cfgs end) ss;
+  let allowed th (s : state) =
+    match th with
+    | RgIn -> (match s.ipc with
+        | I0 -> let i = ncs - List.length s.cin in
+          i >= ncs ||
+          (let (t, g) = creq.(i) in
+           let toclient = s.clog @ s.blog in
+           c13_count (c13_is 9) toclient >= t && c13_count (fun x -> c13_is 2 x || c13_is 102 x) toclient >= g)
+        | _ -> true)
+    | RgOut -> (match s.opc with
+        | O0 -> let i = nss - List.length s.sin in
+          i >= nss || c13_count (fun x -> c13_is 1 x || c13_is 101 x) s.slog >= sreq.(i)
+        | _ -> true)
+    | _ -> true in
+  let fresh () = { ms = (rg_mem0, (false, init cs ss)); labs = []; nsteps = 0; bad = None } in
+  let st_of (e : c13_exec) = snd (snd e.ms) in
+  (* run thread th for at most limit steps or until it is back at its loop head / not enabled *)
   let turn (e : c13_exec) th limit =
     let k = ref 0 and go = ref true in
     while !go && !k < limit do
-      (match rg_move ug tm th e.ms with
+      if not (allowed th (st_of e)) then go := false else
+      (match rp_move late ug tm th e.ms with
        | None -> go := false
        | Some (l, ms') ->
          e.ms <- ms'; e.labs <- l :: e.labs; e.nsteps <- e.nsteps + 1; incr k;
-         if e.bad = None && rg_bad ci si (snd ms') then
-           e.bad <- Some (e.nsteps, if rg_stranded (snd ms') then "stranded" else "conservation");
-         if rg_at_head th (snd ms') then go := false)
+         let s' = snd (snd ms') in
+         if e.bad = None && rg_bad ci si s' then
+           e.bad <- Some (e.nsteps, if rg_stranded s' then "stranded" else "conservation");
+         if rp_at_head th (snd ms') then go := false)
     done; !k in
-  (* canonical run: the length of every turn *)
+  (* fair completion: every thread gets turns until none can move; then nothing may be left *)
+  let finish (e : c13_exec) =
+    let progress = ref true in
+    while !progress do
+      progress := false;
+      List.iter (fun th -> if turn e th 1000 > 0 then progress := true) [RgOut; RgIn; RgHs; RgTl]
+    done;
+    let s = st_of e in
+    if e.bad = None && (rp_holds s || s.cin <> [] || s.sin <> []) then
+      e.bad <- Some (e.nsteps, "hung") in
   let canon = fresh () in
   let lens = Array.init n (fun t -> turn canon (c13_thread turns.[t]) 1000) in
+  finish canon;
   let examined = ref 0 and found = ref [] and nbad = ref 0 in
-  if canon.bad <> None then begin incr nbad; found := ["-1.0.0;canonical;" ^ String.concat " " (List.rev_map c13_label_str canon.labs)] end;
+  let show labs = String.concat " " (List.map (c13_rp_label_str late) labs) in
+  if canon.bad <> None then begin
+    incr nbad;
+    found := [Printf.sprintf "-1.0.0;canonical-%s;%s" (match canon.bad with Some (_, k) -> k | None -> "") (show (List.rev canon.labs))]
+  end;
+  (* one schedule of the family: turn i cut after k steps, resumed after turn j; returns the
+     execution and the number of steps at the end of the resumed turn *)
+  let run_cut i k j =
+    let x = turns.[i] in
+    let e = fresh () in
+    let cut = ref 0 in
+    for t = 0 to n - 1 do
+      if t = i then (if k > 0 then ignore (turn e (c13_thread x) k)) else ignore (turn e (c13_thread turns.[t]) 1000);
+      if t = j then begin ignore (turn e (c13_thread x) 1000); cut := e.nsteps end
+    done;
+    finish e;
+    (e, !cut) in
   for i = 0 to n - 1 do
     let x = turns.[i] in
-    for k = 1 to lens.(i) - 1 do
+    (* k = 0 (the whole turn later) only for the relay's own threads: for a reader it would
+       only be another arrival order of the input *)
+    let k0 = if x = 'H' || x = 'T' then 0 else 1 in
+    for k = k0 to lens.(i) - 1 do
       let first = ref true in
       let j = ref (i + 1) in
       while !j < n && turns.[!j] <> x do
         incr examined;
-        let e = fresh () in
-        let cut = ref 0 in
-        for t = 0 to n - 1 do
-          if t = i then ignore (turn e (c13_thread x) k) else ignore (turn e (c13_thread turns.[t]) 1000);
-          if t = !j then begin ignore (turn e (c13_thread x) 1000); cut := e.nsteps end
-        done;
+        let (e, cut) = run_cut i k !j in
         (match e.bad with
-         | Some (at, kind) ->
+         | Some (_, kind) ->
            incr nbad;
            if !first then begin
              first := false;
-             let labs = List.rev e.labs in
-             let upto = (ignore at; !cut) in
-             let pre = List.filteri (fun idx _ -> idx < upto) labs in
-             found := (Printf.sprintf "%d.%d.%d;%s;%s" i k !j kind (String.concat " " (List.map c13_label_str pre))) :: !found
+             let pre = List.filteri (fun idx _ -> idx < cut) (List.rev e.labs) in
+             found := (Printf.sprintf "%d.%d.%d;%s;%s" i k !j kind (show pre)) :: !found
            end
          | None -> ());
         incr j
       done
     done
   done;
-  (!examined, !nbad, List.rev !found, List.rev_map c13_label_str canon.labs)
-
-let c13_ug = function "0" -> false | "1" -> true | "gen" -> rg_current | _ -> failwith "ug"
+  (!examined, !nbad, List.rev !found, List.rev_map (c13_rp_label_str late) canon.labs, run_cut, show)
 
 let () =
-  register "relay_search" (function [ug; tm; cs; ss; turns] ->
-      let (_, nbad, found, _) = c13_search (c13_ug ug) (bool_of tm) (chunks_of cs) (chunks_of ss) turns in
+  register "relay_search" (function [v; tm; cs; ss; turns] ->
+      let (_, nbad, found, _, _, _) = c13_search (c13_variant v) (bool_of tm) (chunks_of cs) (chunks_of ss) turns in
       (match found with [] -> "none" | w :: _ -> Printf.sprintf "bad:%d:%s" nbad w)
     | _ -> "?args");
-  register "relay_search_list" (function [ug; tm; cs; ss; turns; mx] ->
-      let (ex, nbad, found, _) = c13_search (c13_ug ug) (bool_of tm) (chunks_of cs) (chunks_of ss) turns in
+  register "relay_search_list" (function [v; tm; cs; ss; turns; mx] ->
+      let (ex, nbad, found, _, _, _) = c13_search (c13_variant v) (bool_of tm) (chunks_of cs) (chunks_of ss) turns in
       let rec take k = function [] -> [] | x :: r -> if k = 0 then [] else x :: take (k - 1) r in
       String.concat "|" (Printf.sprintf "examined=%d;bad=%d" ex nbad :: take (int_of_string mx) found)
     | _ -> "?args");
   (* relay_canon: the label sequence of the canonical schedule itself *)
-  register "relay_canon" (function [ug; tm; cs; ss; turns] ->
-      let (_, _, _, canon) = c13_search (c13_ug ug) (bool_of tm) (chunks_of cs) (chunks_of ss) turns in
+  register "relay_canon" (function [v; tm; cs; ss; turns] ->
+      let (_, _, _, canon, _, _) = c13_search (c13_variant v) (bool_of tm) (chunks_of cs) (chunks_of ss) turns in
       String.concat " " canon
     | _ -> "?args");
-  (* relay_guard_run <ug> <tmux> <client chunks> <server chunks> <labels>: a label sequence on
-     rg_run; prints "none" (not a path), "ok" or the kind of violation of the final state *)
-  register "relay_guard_run" (function [ug; tm; cs; ss; ls] ->
+  (* relay_cut_labels <variant> ... <i.k.j>: the labels of that schedule of the family under the
+     given variant, up to the end of the resumed turn, and what the model says of the whole run *)
+  register "relay_cut_labels" (function [v; tm; cs; ss; turns; cut] ->
+      let (_, _, _, _, run_cut, show) = c13_search (c13_variant v) (bool_of tm) (chunks_of cs) (chunks_of ss) turns in
+      (match List.map int_of_string (String.split_on_char '.' cut) with
+       | [i; k; j] ->
+         let (e, upto) = run_cut i k j in
+         let pre = List.filteri (fun idx _ -> idx < upto) (List.rev e.labs) in
+         (match e.bad with Some (_, kind) -> kind | None -> "ok") ^ ";" ^ show pre
+       | _ -> "?cut")
+    | _ -> "?args");
+  (* relay_guard_run <variant> <tmux> <client chunks> <server chunks> <labels>: a label sequence
+     (labels of step_fn, HB = the worker's publication) on rp_run; prints "none" (not a path),
+     "ok" or the kind of violation of the final state *)
+  register "relay_guard_run" (function [v; tm; cs; ss; ls] ->
       let cs = chunks_of cs and ss = chunks_of ss in
-      let labels = List.map c13_label (split_on ' ' ls) in
-      (match rg_run (c13_ug ug) (bool_of tm) labels (init cs ss) with
+      let (ug, late) = c13_variant v in
+      let labels = List.map (fun t -> if t = "HB" then RpPublish else RpL (c13_label (if t = "Oh" then "OH" else t))) (split_on ' ' ls) in
+      (match rp_run late ug (bool_of tm) labels (false, init cs ss) with
        | None -> "none"
-       | Some s -> if rg_stranded s then "stranded" else if rg_bad (List.concat cs) (List.concat ss) s then "conservation" else "ok")
+       | Some (_, s) -> if rg_stranded s then "stranded" else if rg_bad (List.concat cs) (List.concat ss) s then "conservation" else "ok")
     | _ -> "?args")
